@@ -143,6 +143,7 @@ func validationBarrier(c *core.Check, fn *ssa.Function, sinks []string) (bool, s
 // roots and turns each into an obligation.
 func orderCheck(c *core.Check, rule string, roots []*ssa.Function, barriers []*ssa.Function, table map[string]discharge, skipKinds map[string]string) {
 	prog := c.Prog
+	rules.PureFunc = func(fn *types.Func) bool { return ssaPure(prog.SSA().FuncValue(fn), 0, map[*ssa.Function]bool{}) }
 	isBarrier := map[*ssa.Function]bool{}
 	for _, b := range barriers {
 		isBarrier[b] = true
@@ -408,4 +409,49 @@ func singleProducer(c *core.Check, relPkg, fn string) func(*core.Check) (bool, s
 		}
 		return false, fmt.Sprintf("go statements=%d inLoop=%v channels=%d", gos, inLoop, makes)
 	}
+}
+
+// ssaPure: the function (and, to depth 3, its static callees) stores only into its own locals, updates no map,
+// sends on no channel, starts no goroutine and makes no dynamic call.
+func ssaPure(fn *ssa.Function, depth int, seen map[*ssa.Function]bool) bool {
+	if fn == nil || len(fn.Blocks) == 0 || depth > 3 {
+		return false
+	}
+	if seen[fn] {
+		return true
+	}
+	seen[fn] = true
+	for _, b := range fn.Blocks {
+		for _, ins := range b.Instrs {
+			switch x := ins.(type) {
+			case *ssa.Store:
+				if _, local := x.Addr.(*ssa.Alloc); !local {
+					return false
+				}
+			case *ssa.MapUpdate, *ssa.Send, *ssa.Go, *ssa.Defer, *ssa.Panic:
+				return false
+			case *ssa.Call:
+				if _, isBuiltin := x.Call.Value.(*ssa.Builtin); isBuiltin {
+					continue
+				}
+				callee := x.Call.StaticCallee()
+				if callee == nil {
+					return false
+				}
+				if !core.InRepo(callee) {
+					if callee.Pkg != nil {
+						switch callee.Pkg.Pkg.Path() {
+						case "strings", "strconv", "unicode", "bytes", "math", "errors", "unsafe":
+							continue
+						}
+					}
+					return false
+				}
+				if !ssaPure(callee, depth+1, seen) {
+					return false
+				}
+			}
+		}
+	}
+	return true
 }
